@@ -31,7 +31,6 @@ PENDING = {
 "C04":"end-of-stream clause to be claimed via Engine B (in construction); not yet registered",
 "C17":"to be claimed via Engine B (in construction); not yet registered",
 "C20":"to be claimed via Engine A (in construction); not yet registered",
-"C21":"to be claimed via Engine A (in construction); not yet registered",
 "C23":"to be claimed via Engine A (in construction); not yet registered",
 "C27":"to be claimed via Engine B (in construction); not yet registered",
 }
@@ -39,6 +38,13 @@ PENDING = {
 TB_A = "trusted: the LD_PRELOAD shim sees every in-world mutating libc call (audited against strace), tmpfs semantics, lalrpop itself as the *content* oracle (forced build in a clean world), the reference path/discovery model written from the property statement; sampling gives evidence, not proof"
 
 CHECKS = [
+ dict(property_id="C21", quick_cmd="./check C21 quick", thorough_cmd="./check C21 thorough",
+      evidence_file="evidence/C21.json", replay_cmd_template="./check C21 replay {path}", engine="buildsim",
+      level_claimed=dict(category="exploration",
+        text="Seeded histories (4-25 ops over 1-5 grammars, four entry-point layouts incl. the real CLI) of grammar edits, reverts, touches, mtime changes, output deletion, version/hash header damage (incl. non-UTF-8 bytes and truncation), error introduction/removal and non-forced/forced builds; after every build a reference model demands byte-identity with a forced build, no output for failed grammars, untouched current outputs (no mutating libc call on the path, same inode and mtime) and Ok iff nothing failed. Half of the runs add transparent faults (short reads/writes, EINTR) that must change nothing.",
+        design_ref="DESIGN.md section 4 (C21)"),
+      level_note=TB_A + "; white-space-only header edits, output collisions and body edits under an intact header are outside the stated contract and not generated",
+      technique="deterministic simulation: seeded operation histories against a reference model, transparent fault injection (short I/O, EINTR) at the libc boundary"),
  dict(property_id="C22", quick_cmd="./check C22 quick", thorough_cmd="./check C22 thorough",
       evidence_file="evidence/C22.json", replay_cmd_template="./check C22 replay {path}", engine="buildsim",
       level_claimed=dict(category="fault_enumeration",
